@@ -16,7 +16,8 @@ RULE = ("cases = (load) the real LoadTransfer + ComputeNodes components on rando
         "about three random points.  Non-trivial = non-zero forces/displacements and all families of the kind evaluated")
 ASSUMPTIONS = ["statics: resultant force and moment of a force system", "numpy"]
 REQUIRED_FAMILIES = ["load/total_force", "load/total_moment", "mpf/total_force", "mpf/total_moment", "disp/zero_is_identity",
-                     "disp/translation_exact", "disp/rotation_first_order", "coupled/load/total_moment"]
+                     "disp/translation_exact", "disp/rotation_first_order", "coupled/load/total_moment", "coupled2/load/total_moment",
+                     "mpf_sweep/total_force", "mpf_sweep/zero_forces_give_zero_node_forces"]
 LEVEL_TEXT = ("the real transfer components are executed on generated deformed meshes, force fields, spar positions and "
               "displacement fields, and in converged coupled analyses; total force and total moment about random points are "
               "compared with first principles on every execution, rigid-motion identities with exact expectations")
@@ -63,6 +64,27 @@ def cases(tier, seed):
         out.append(dict(kind="coupled", surfaces=[dict(name="wing", symmetry=(half == "left"), mesh=spec, fem_model_type="tube" if k % 2 else "wingbox",
                                                        fem_origin=float(np.round(rng.uniform(0.1, 0.7), 3)))],
                         flow=dict(alpha=float(np.round(rng.uniform(1, 8), 2)), v=float(rng.uniform(50, 160)), rho=float(rng.uniform(0.3, 0.8))), _cost=6))
+    # two surfaces in one coupled point, each with its own spar location (same and different mesh shapes)
+    n = 4 if tier == "quick" else 24
+    for k in range(n):
+        half = "left" if k % 2 else "full"
+        spec = zoo.sane_wing(M.random_spec(rng, half=half, nx=int(rng.integers(2, 4)), ny=int(rng.integers(3, 6))))
+        spec["camber"] = 0.0
+        tspec = dict(spec, span=float(np.round(spec["span"] * 0.5, 3)), root_chord=float(np.round(spec["root_chord"] * 0.7, 3)), offset=[float(spec["root_chord"] * 4), 0.0, 0.4])
+        if k % 4 >= 2:
+            tspec["ny"] = max(3, spec["ny"] - (2 if half == "full" else 1))
+        fo = [float(np.round(rng.uniform(0.1, 0.4), 3)), float(np.round(rng.uniform(0.5, 0.8), 3))]
+        out.append(dict(kind="coupled2", surfaces=[dict(name="wing", symmetry=(half == "left"), mesh=spec, fem_model_type="tube", fem_origin=fo[0], thickness_cp=[0.03]),
+                                                   dict(name="tail", symmetry=(half == "left"), mesh=tspec, fem_model_type="tube", fem_origin=fo[1], thickness_cp=[0.02])],
+                        flow=dict(alpha=float(np.round(rng.uniform(1, 6), 2)), v=float(rng.uniform(50, 120)), rho=float(rng.uniform(0.3, 0.8))), _cost=10))
+    # a sweep of one live aero problem through a condition with exactly zero panel forces (flat untwisted wing at alpha = 0)
+    n = 4 if tier == "quick" else 20
+    for k in range(n):
+        half = ["left", "right", "full"][k % 3]
+        out.append(dict(kind="mpf_sweep", mesh=dict(nx=int(rng.integers(2, 4)), ny=int(rng.integers(3, 7)) | (1 if half == "full" else 0), half=half,
+                                                    span=float(np.round(rng.uniform(6, 14), 2)), root_chord=float(np.round(rng.uniform(0.8, 2), 2)),
+                                                    sweep_deg=float(np.round(rng.uniform(0, 25), 1))), compressible=bool(k % 2),
+                        alphas=[4.0, 2.0, 0.0, -2.0, 0.0, 3.0], _cost=4))
     return out
 
 
@@ -257,9 +279,58 @@ def run_coupled(c, o):
     o.nontrivial = bool(np.abs(disp).max() > 0)
 
 
+def run_coupled2(c, o):
+    """every surface of a multi-surface coupled point transfers its loads about its own spar line"""
+    import openmdao.api as om
+    from openaerostruct.structures.compute_nodes import ComputeNodes
+
+    prob = zoo.build_as(dict(surfaces=c["surfaces"], flow=c["flow"]))
+    zoo.run(prob)
+    rng = np.random.default_rng(5)
+    for s in prob._oas_surfaces:
+        n = s["name"]
+        def_mesh = zoo.get(prob, "AS_point_0.coupled.%s.def_mesh" % n)
+        sf = zoo.get(prob, "AS_point_0.coupled.aero_states.%s_sec_forces" % n)
+        loads = zoo.get(prob, "AS_point_0.coupled.%s_loads.loads" % n)
+        q = om.Problem(reports=False)
+        ivc = om.IndepVarComp()
+        ivc.add_output("mesh", val=def_mesh, units="m")
+        q.model.add_subsystem("ivc", ivc, promotes=["*"])
+        q.model.add_subsystem("cn", ComputeNodes(surface=s), promotes=["*"])
+        with warnings.catch_warnings():
+            warnings.simplefilter("ignore")
+            q.setup()
+            q.run_model()
+        spts = np.array(q.get_val("nodes"))
+        conservation(o, "coupled2/load", rng, def_mesh, sf, spts, loads[:, :3], loads[:, 3:], tags=[n, "fem_origin=%g" % s["fem_origin"], "two_surfaces"])
+    o.nontrivial = True
+
+
+def run_mpf_sweep(c, o):
+    s = dict(name="wing", symmetry=(c["mesh"]["half"] != "full"), mesh=c["mesh"])
+    prob = zoo.build_aero(dict(surfaces=[s], flow=dict(alpha=c["alphas"][0], beta=0.0, v=80.0, rho=1.0, Mach_number=0.4), compressible=c["compressible"]), geom=False)
+    rng = np.random.default_rng(11)
+    mesh = prob._oas_surfaces[0]["mesh"]
+    zero_seen = False
+    for a in c["alphas"]:
+        prob.set_val("alpha", a)
+        zoo.run(prob)
+        sf = zoo.get(prob, "aero.aero_states.wing_sec_forces")
+        mpf = zoo.get(prob, "aero.aero_states.wing_mesh_point_forces")
+        fs = np.abs(sf).sum()
+        tags = ["sweep", "alpha=%g" % a, "compressible" if c["compressible"] else "incompressible"]
+        if fs == 0:
+            zero_seen = True
+            o.close("mpf_sweep/zero_forces_give_zero_node_forces", mpf, 0.0, rtol=0, atol=0, tags=tags, what="panel forces are exactly zero at alpha=%g but the exported node forces are not" % a)
+        else:
+            conservation(o, "mpf_sweep", rng, mesh, sf, mesh, mpf, None, tags=tags)
+    o.info = dict(zero_force_condition_reached=zero_seen)
+    o.nontrivial = True
+
+
 def run_case(c):
     o = Obs()
-    {"load": run_load, "mpf": run_mpf, "disp": run_disp, "coupled": run_coupled}[c["kind"]](c, o)
+    {"load": run_load, "mpf": run_mpf, "disp": run_disp, "coupled": run_coupled, "coupled2": run_coupled2, "mpf_sweep": run_mpf_sweep}[c["kind"]](c, o)
     return o
 
 
